@@ -25,6 +25,7 @@ MC_Fns == {"exp"}
 MC_SOps == {"*", "-"}
 MC_VOps == {"*", "-"}
 MC_Senses == {"<=", ">=", "=="}
+MC_ObjCands == {}
 MC_Stages == <<>>
 MC_FinalEn == {}
 MC_SingValues == {}
